@@ -25,8 +25,13 @@ func VerifDecodeCall(frame []byte) (method string, params []byte, hasParams, mor
 	var in serviceCall
 	err = json.Unmarshal(frame, &in)
 	if in.Parameters != nil {
+		// read them the way a handler does (Call.GetParameters), whatever the field's representation is
 		hasParams = true
-		params = []byte(*in.Parameters)
+		c := Call{In: &in}
+		var raw json.RawMessage
+		if e := c.GetParameters(&raw); e == nil {
+			params = []byte(raw)
+		}
 	}
 	return in.Method, params, hasParams, in.More, in.Oneway, in.Upgrade, err
 }
